@@ -639,6 +639,9 @@ def shrink_case(mod, binpath, case, still_bad, max_rounds=60, budget_s=45.0):
     if case.op == "detmulti":
         from driver import multigen
         shrinker = multigen.shrink
+    elif case.op == "cli_lib":
+        from driver import cligen
+        shrinker = cligen.shrink
     elif hasattr(mod, "shrink"):
         shrinker = mod.shrink
     else:
